@@ -3,7 +3,7 @@ import math
 
 from harness import dtwgen
 
-COQ_FILES = ["theories/BandTie.v", "props/C01.v"]
+COQ_FILES = ["theories/BandTie.v", "theories/PyDist.v", "props/C01.v"]
 THEOREMS = [("DVProps.C01", "C01_lower_bound"), ("DVProps.C01", "C01_attained")]
 TRUSTED_BASE = [
     "Coq 8.16.1 kernel (no native_compute)",
@@ -38,13 +38,16 @@ def gen_cases(rng, tier):
 
 def expected(cases, oracle):
     ans = oracle.query([dtwgen.oracle_line("dtw", c) for c in cases])
+    ans2 = oracle.query([dtwgen.oracle_line("pydist", c) for c in cases])
     out = []
-    for c, a in zip(cases, ans):
-        if a.startswith("ERR"):
-            out.append({"err": a})
+    for c, a, a2 in zip(cases, ans, ans2):
+        if a.startswith("ERR") or a2.startswith("ERR"):
+            out.append({"err": a + a2})
         else:
             v = math.inf if a == "inf" else int(a)
-            out.append({"internal": v, "value": dtwgen.result_transform(v, c["settings"]["inner_dist"])})
+            v2 = math.inf if a2 == "inf" else int(a2)
+            out.append({"internal": v, "value": dtwgen.result_transform(v, c["settings"]["inner_dist"]),
+                        "as_written": dtwgen.result_transform(v2, c["settings"]["inner_dist"])})
     return out
 
 
@@ -124,6 +127,8 @@ def judge(case, got, exp):
     if "exc" in got:
         return {"kind": "exception:" + got["exc"], "detail": got.get("msg")}
     g = got["ok"]
+    if exp["as_written"] != exp["value"]:
+        return {"kind": "as-written-model-differs-from-spec", "as_written": exp["as_written"], "spec": exp["value"]}
     if isinstance(g, (int, float)) and float(g) == exp["value"]:
         return None
     return {"kind": "wrong-value" if g != math.inf else "spurious-inf", "got": g, "expected": exp["value"]}
